@@ -167,6 +167,55 @@ def run(repo: Repo, chk: Check) -> None:
     per_streamer_freshness(repo, chk)
     bypass_bits(repo, chk)
     rescale_source(repo, chk)
+    broadcast_any(repo, chk)
+
+
+# --------------------------------------------------------------------------- a flag found in ANY spatial dimension
+def broadcast_any(repo: Repo, chk: Check) -> None:
+    """a streamer broadcasts when SOME spatial stride of its operand is zero. The flag is collected while the spatial strides are emitted: inside
+    that loop it may only be raised (or or-ed with what it was); assigning it the verdict of the current dimension lets the last dimension decide"""
+    chk.rule("C08.broadcast-any", "a per-operand flag initialised to False and set in the loop over the spatial dimensions is only raised there (assigned True, or or-ed with "
+             "its previous value), never overwritten with the current dimension's verdict", floor=1)
+    f, fl = flow_of(repo, chk, SNAX, "SNAXStreamer._generate_streamer_setup_vals")
+    flags = set()
+    for st in fl.stmts(ast.Assign):
+        v = st.node.value
+        if st.reachable and isinstance(st.node.targets[0], ast.Name) and norm.any_match(["[False] * $n", "$n * [False]"], v) is not None or (
+                st.reachable and isinstance(st.node.targets[0], ast.Name) and isinstance(v, ast.ListComp) and isinstance(v.elt, ast.Constant) and v.elt.value is False):
+            flags.add(st.node.targets[0].id)
+    if not flags:
+        raise AnalysisError(f"{f.where}: no per-operand flag list initialised to False found")
+    n_ = 0
+    for st in fl.stmts(ast.Assign, ast.AugAssign):
+        tgt = st.node.targets[0] if isinstance(st.node, ast.Assign) else st.node.target
+        if not (st.reachable and isinstance(tgt, ast.Subscript) and isinstance(tgt.value, ast.Name) and tgt.value.id in flags):
+            continue
+        dim_loops = [l for l in st.loops if isinstance(l, ast.For) and norm.contains(l.iter, T("$s.spatial_dims"))]
+        if not dim_loops:
+            continue
+        n_ += 1
+        lp = dim_loops[-1]
+        v = st.node.value
+        local = {n.id for x in lp.body for n in ast.walk(x) if isinstance(n, ast.Name) and isinstance(n.ctx, ast.Store)} | {n.id for n in ast.walk(lp.target) if isinstance(n, ast.Name)}
+        prev = ast.unparse(tgt)
+        if isinstance(st.node, ast.AugAssign):
+            ok = isinstance(st.node.op, ast.BitOr)
+            why = "or-accumulated" if ok else f"updated with `{type(st.node.op).__name__}`"
+        elif isinstance(v, ast.Constant) and v.value is True:
+            ok, why = True, "raised to True"
+        elif isinstance(v, ast.BoolOp) and isinstance(v.op, ast.Or) and any(ast.unparse(x) == prev for x in v.values):
+            ok, why = True, "or-ed with its previous value"
+        elif isinstance(v, ast.BinOp) and isinstance(v.op, ast.BitOr) and prev in (ast.unparse(v.left), ast.unparse(v.right)):
+            ok, why = True, "or-ed with its previous value"
+        elif local & norm.free_names(v) or local & norm.free_names(st.expand(v)):
+            ok, why = False, f"assigned `{ast.unparse(v)[:70]}`, the verdict of the current dimension alone"
+        else:
+            raise AnalysisError(f"{st.where()}: how the flag `{prev}` is updated inside the loop over the spatial dimensions is not recognised")
+        chk.result(ok, "C08.broadcast-any", f"{f.key}:{tgt.value.id}#{n_}", st.where(), f"inside the loop over the spatial dimensions the flag is {why}",
+                   f"inside the loop over the spatial dimensions the flag is {why}: the last dimension decides, an operand whose zero stride is in an earlier spatial dimension "
+                   "is not broadcast (and one whose last stride is non-zero loses a flag raised before)")
+    if n_ == 0:
+        chk.ok("C08.broadcast-any", f"{f.key}:no-accumulation", f.where, "no flag is set inside the loop over the spatial dimensions", nontrivial=False)
 
 
 # --------------------------------------------------------------------------- which kernel.rescale the gemmx registers are taken from
